@@ -58,6 +58,17 @@ func judgeC01(src []byte) *eng.Fail {
 	}
 	o := safeParse(src)
 	st := steps()
+	if len(src) <= 64 {
+		// the same text in a slice without spare capacity (what []byte(str) of a caller usually is): reading
+		// past the end of the text would then be a fault and not a silent success
+		exact := make([]byte, len(src))
+		copy(exact, src)
+		if o2 := safeParse(exact[:len(src):len(src)]); o2.panicked {
+			return eng.F("C01/panic", "ParseSourceCode panicked on a slice with len == cap: %s", o2.panicMsg)
+		} else if (o2.err == nil) != (o.err == nil) {
+			return eng.F("C01/capacity-dependent", "the verdict depends on the spare capacity of the byte slice: %v with spare capacity, %v without", o.err, o2.err)
+		}
+	}
 	if big {
 		// work hidden from the step counter (copying inside library calls) still shows as
 		// allocation volume, which is deterministic: measured <= 130 bytes per input byte
@@ -268,5 +279,6 @@ func runC01(w *eng.W) {
 	listForms(w, "list-forms", do)
 	postfixChains(w, "postfix-chains", pick(2, 3), do)
 	byteStrings(w, "bytes", pick(4, 6), do)
+	byteSequences(w, "byte-sequences", pick(3, 4), do)
 	tokenSeqs(w, "class-seq", SigmaClass, pick(4, 5), do)
 }
